@@ -49,6 +49,10 @@ def rule_eff(c: Ctx, which: str = "api") -> RuleResult:
             key = f"{f.short}|{alpha(f, e.stmt)[:120]}|{e.text}"
             if e.category in ALLOWED:
                 r.add(key, c.where(f, e.stmt), f.short, e.text, "discharged", f"object written is {e.category} ({e.detail})")
+            elif e.detail == "global statement" and _lazy_const_global(f, e.field):
+                r.add(key, c.where(f, e.stmt), f.short, e.text, "discharged",
+                      "hand-written memo of a parameterless pure function of module constants (the same thing @functools.cache does): "
+                      "assigned only under `is None`, idempotent")
             elif _is_cache_effect(e):
                 r.add(key, c.where(f, e.stmt), f.short, e.text, "exempt",
                       "reviewed: lazily compiled chain cache - idempotent, a pure function of the rule list; its publication "
@@ -78,6 +82,37 @@ def rule_eff(c: Ctx, which: str = "api") -> RuleResult:
                   "a configuration object is (re)built during parse/render")
     r.floor = 250 if which == "api" else 20
     return r
+
+
+def _lazy_const_global(f: Func, name: str) -> bool:
+    """`name` is a module-level memo of the parameterless function f: initialised to None at module level, declared `global`
+    only in f, stored only in f, each store a plain `name = <expr>` in the body of `if name is None:` (or the else of `is not
+    None`), the value reading no parameter, no `self` / `state`."""
+    if f.node.args.args or f.node.args.kwonlyargs or f.node.args.vararg or f.node.args.kwarg or f.cls is not None:
+        return False
+    d = f.module.defs.get(name)
+    v = getattr(d, "value", None)
+    if not (isinstance(d, (ast.Assign, ast.AnnAssign)) and isinstance(v, ast.Constant) and v.value is None):
+        return False
+    for g in ast.walk(f.module.tree):
+        if isinstance(g, (ast.FunctionDef, ast.AsyncFunctionDef)) and g is not f.node and any(
+                isinstance(x, ast.Global) and name in x.names for x in ast.walk(g)):
+            return False
+    stores = [x for x in own_nodes(f.node) if isinstance(x, ast.Name) and x.id == name and isinstance(x.ctx, (ast.Store, ast.Del))]
+    if not stores:
+        return False
+    for x in stores:
+        a = f.module.parents.get(x)
+        g = f.module.parents.get(a)
+        if not (isinstance(a, ast.Assign) and len(a.targets) == 1 and a.targets[0] is x and isinstance(g, ast.If)):
+            return False
+        t = g.test
+        ok_branch = (U(t) == f"{name} is None" and a in g.body) or (U(t) == f"{name} is not None" and a in g.orelse)
+        if not ok_branch:
+            return False
+        if any(isinstance(y, ast.Attribute) and isinstance(y.value, ast.Name) and y.value.id in ("self", "state") for y in ast.walk(a.value)):
+            return False
+    return True
 
 
 def rule_eff_config(c: Ctx) -> RuleResult:
@@ -502,7 +537,9 @@ def rule_ambient(c: Ctx) -> RuleResult:
     for f in c.p.all_funcs():
         for n in own_nodes(f.node):
             if isinstance(n, (ast.Global, ast.Nonlocal)) and isinstance(n, ast.Global):
-                r.add(f"{f.short}|global|{','.join(n.names)}", c.where(f, n), f.short, U(n), "violation",
+                lazy = all(_lazy_const_global(f, nm_) for nm_ in n.names)
+                r.add(f"{f.short}|global|{','.join(n.names)}", c.where(f, n), f.short, U(n), "discharged" if lazy else "violation",
+                      "lazily initialised constant: assigned only under `is None`, in a parameterless function, from module constants" if lazy else
                       "rebinding a module-level name at run time makes results depend on call history")
     r.functions = len(phase)
     r.floor = 40
